@@ -486,7 +486,7 @@ func ruleTB4() Rule {
 			if f := c.mustFn(rr, "interp.(*field).pattern"); f != nil {
 				info := f.Info()
 				n := 0
-				f.OwnNodes(func(x ast.Node) bool {
+				c.regionNodes(f, func(_ *core.Func, x ast.Node) bool {
 					call, ok := x.(*ast.CallExpr)
 					if !ok || len(call.Args) != 2 {
 						return true
